@@ -44,6 +44,7 @@ def main(argv=None):
     ap.add_argument("--known", default="")
     ap.add_argument("--replay", default="")
     ap.add_argument("--scale", type=float, default=1.0)
+    ap.add_argument("--no-shrink", action="store_true")
     a = ap.parse_args(argv)
 
     warnings.filterwarnings("ignore", category=SyntaxWarning)
@@ -56,7 +57,7 @@ def main(argv=None):
         mod = importlib.import_module(f"vp.checks.{a.check.lower()}")
         known = json.load(open(a.known)) if a.known else []
         ctx = Ctx(prop=a.check, tier=a.tier, seed=a.seed, shard=a.shard, nshards=a.nshards,
-                  known=known, scratch=scratch, options={"scale": a.scale})
+                  known=known, scratch=scratch, options={"scale": a.scale, "shrink": (False if a.no_shrink else None)})
 
         # 1. replay the examples of the open known findings: only those still failing are tolerated
         still = {}
